@@ -132,6 +132,45 @@ def search(ctx):
             vios.append(out[0])
             if len(vios) >= 5:
                 break
+    # directed: the rule matches a command whose *embedded* parts still need a prompt - a pure $(…) argument of a handler CLI
+    # (the "cmdsub injection risk" prompt), a redirection, an unsafe substitution - alone and inside a pipeline / list / if
+    focus_cmds = [["git", "push"], ["git", "push", "origin"], ["kubectl", "delete", "pod"], ["docker", "rm"], ["npm", "install"], ["curl", "-X", "POST"], ["git", "commit", "-m"], ["pip", "install"]]
+    inner_ok = [["echo", "origin"], ["git", "branch", "--show-current"], ["ls"], ["docker", "ps", "-aq"]]
+    inner_bad = [["rm", "x"], ["denied"], ["askme"]]
+    for _ in range(ctx.scale(120, 3000) * (3 if ctx.broken else 1)):
+        if len(vios) >= 5:
+            break
+        cmd = r.pick(focus_cmds)
+        inner = r.pick(inner_ok if r.chance(0.7) else inner_bad)
+        sub = B.W([B.Seg("cmdsub", prog=B.Simple([], [B.lit(x) for x in inner], []))])
+        argv = [B.lit(x) for x in cmd] + ([sub] if r.chance(0.8) else [B.W([B.Seg("lit", "x-"), sub.segs[0]])])
+        redirs = [B.Redir(">", B.lit(r.pick(B.TARGETS_ASK + B.TARGETS_DENY)))] if r.chance(0.25) else []
+        sc = B.Simple([], argv, redirs)
+        shape = r.randrange(4)
+        prog = sc if shape == 0 else B.Pipe([sc, B.Simple([], [B.lit("cat")], [])], ["|"]) if shape == 1 else B.Seq([B.Simple([], [B.lit("ls")], []), sc], ["&&"]) if shape == 2 else B.If(B.Simple([], [B.lit("true")], []), sc)
+        k = r.randint(1, len(cmd))
+        rule = "allow " + " ".join(cmd[:k]) + r.pick(["", "", " *"]) + "\n"
+        cfg_text = B.CONFIG_TEXT + rule
+        plus = c03.Oracle(cfg_text)
+        out = []
+        try:
+            plus.walk(prog, out, stats)
+        except Exception:  # noqa: BLE001
+            continue
+        stats["directed_rule_cases"] += 1
+        evals += plus.evals
+        for v in out:
+            cmdt = v["input"]["command"]
+            b_act = base.verdict(cmdt)[0]
+            b_worst = "allow"
+            for label, t, _a in v["observed"].get("parts", []):
+                a = "ask" if label == "inject" else base.verdict(t)[0]
+                if RANK[a] > RANK[b_worst]:
+                    b_worst = a
+            if b_act == b_worst:
+                v["added_rule"] = rule.strip()
+                vios.append(v)
+                break
     evals += base.evals
     return {"violations": vios, "evaluations": evals, "distinct_nontrivial": distinct, "programs": n, "stats": dict(stats), "samples": samples, "oracle": "rule-locality on analyze(): redirect atoms rule-free, unmatched commands unchanged, max-of-parts under cfg+"}
 
